@@ -12,7 +12,7 @@ from phyclone.smc.swarm import TreeHolder
 
 ID = "C03"
 LEVEL = "proof"
-THEOREMS = []
+THEOREMS = ["pOne_isoP", "pMarg_isoP", "pOne_iso", "pMarg_iso", "canon_iso", "pOne_canon", "pMarg_canon", "pOne_pos", "pMarg_pos", "outlierMarg_single", "outlierMarg_eq", "treeKey_iff", "treeKey_iff_out"]
 BUDGET = {"quick": 90, "thorough": 600}
 RULE = ("random trees on 1..8 data points (0-3 outliers, cluster sizes 1-3, per-point outlier priors mixed with 0), 1-2 samples, "
         "grid 3..6, alpha in {1/10,3/10,1,7/2,10}; each tree is realised through up to six construction histories (canonical, "
